@@ -3,6 +3,8 @@ package mc
 import (
 	"fmt"
 	"strings"
+
+	"github.com/element-of-surprise/coercion/workflow"
 )
 
 // C01: declared order and gating. Every rule is evaluated for each new plugin invocation against the
@@ -11,7 +13,74 @@ type monC01 struct{}
 
 func isSeqAction(oi *ObjInfo) bool { return oi != nil && oi.Kind == "action" && oi.Seq >= 0 }
 
-func (monC01) AtState(x *Exec) {
+// recoveryOrder: the statement for a restarted process (crash layer). What was durable at the crash counts as done: an
+// action is invoked only when its predecessor in the sequence succeeded (durably before the crash or in this life),
+// only when every earlier block is stored finished, and a sequence that had not been started before the crash only
+// after the plan's and the block's pre-checks passed (durably before the crash or in this life).
+func (monC01) recoveryOrder(x *Exec) {
+	from, to := newEvents(x, "c01r")
+	if from == to {
+		return
+	}
+	h := NewHist(x, -1)
+	for k := from; k < to; k++ {
+		e := &h.Events[k]
+		if e.Kind != "INV" {
+			continue
+		}
+		oi := x.W.Objs[e.Path]
+		if !isSeqAction(oi) {
+			continue
+		}
+		cv := crashView(x, oi.Plan)
+		if cv == nil {
+			continue
+		}
+		planPath := fmt.Sprintf("P%d", oi.Plan)
+		rep := func(rule, sig, msg string) {
+			x.Report(&Violation{Property: "C01", Rule: rule, Signature: sig, Msg: fmt.Sprintf("restarted process, invocation #%d of %s: %s", e.N, e.Path, msg)})
+		}
+		if oi.Idx > 0 {
+			pp := fmt.Sprintf("%s/A%d", oi.Parent, oi.Idx-1)
+			okNow := false
+			for _, c := range h.callsBefore(pp, k) {
+				if c.OK() {
+					okNow = true
+				}
+			}
+			if !okNow && !durableSuccess(cv.Objs[pp]) {
+				rep("action-before-predecessor-succeeded", "seq-order-across-crash", fmt.Sprintf("previous action %s succeeded neither durably before the crash (stored %s) nor since the restart", pp, statusOf(cv.Objs[pp])))
+			}
+		}
+		if p, err := x.ReadPlan(oi.Plan); err == nil {
+			v := View(p)
+			for bi := 0; bi < oi.Block; bi++ {
+				bp := fmt.Sprintf("%s/B%d", planPath, bi)
+				if bo := v.Objs[bp]; bo != nil && !terminal(bo.Status) {
+					rep("block-out-of-order", "blocks-across-crash", fmt.Sprintf("earlier block %s is stored %s", bp, bo.Status))
+				}
+			}
+		}
+		if ss := cv.Objs[oi.Parent]; ss != nil && ss.Status == workflow.NotStarted {
+			for _, scope := range []string{planPath, fmt.Sprintf("%s/B%d", planPath, oi.Block)} {
+				_, pre, _, _, _ := x.scopeChecks(scope)
+				if pre == nil {
+					continue
+				}
+				po := cv.Objs[scope+"/Pre"]
+				if !(po != nil && po.Status == workflow.Completed) && !h.groupPassed(x, scope+"/Pre", k) {
+					rep("sequence-action-before-prechecks-passed", "pre-across-crash", fmt.Sprintf("the pre-checks of %s passed neither durably before the crash (stored %s) nor since the restart", scope, statusOf(po)))
+				}
+			}
+		}
+	}
+}
+
+func (m monC01) AtState(x *Exec) {
+	if _, rec := recoveryMode(x); rec {
+		m.recoveryOrder(x)
+		return
+	}
 	from, to := newEvents(x, "c01")
 	if from == to {
 		return
